@@ -17,7 +17,7 @@ from fractions import Fraction
 
 VERIF = os.path.dirname(os.path.dirname(os.path.abspath(__file__)))
 REPO = os.environ.get("XGCM_REPO", "/repo")
-DRIVER = os.path.join(VERIF, "lean", ".lake", "build", "bin", "driver")
+DRIVER = os.environ.get("XGCM_DRIVER") or os.path.join(VERIF, "lean", ".lake", "build", "bin", "driver")
 if "XGCM_REPO" in os.environ:          # development aid: run the harness against another checkout
     sys.path.insert(0, REPO)
 
